@@ -8,6 +8,7 @@ import (
 	"encoding/json"
 	"fmt"
 	"sort"
+	"strconv"
 	"strings"
 
 	"github.com/hashicorp/hcl-lang/lang"
@@ -87,6 +88,62 @@ type AItem struct {
 	Body   Seq[*AItem] `json:"body"`
 }
 
+type AAddr struct {
+	K             string             `json:"k,omitempty"` // "nil" marks absence
+	Steps         Seq[[]interface{}] `json:"steps"`
+	Scope         string             `json:"scope"`
+	AsRef         bool               `json:"asRef"`
+	AsType        bool               `json:"asType"`
+	AsTypeOf      string             `json:"asTypeOf"`
+	BodyAsData    bool               `json:"bodyAsData"`
+	DepBodyAsData bool               `json:"depBodyAsData"`
+	UnknownNested bool               `json:"unknownNested"`
+}
+
+func (a *AAddr) IsNil() bool { return a == nil || a.K == "nil" }
+
+type ATas struct {
+	Addr  Seq[string] `json:"addr"`
+	Scope string      `json:"scope"`
+	Typ   string      `json:"typ"`
+}
+
+func friendlyType(t string) cty.Type {
+	switch t {
+	case "string":
+		return cty.String
+	case "number":
+		return cty.Number
+	case "bool":
+		return cty.Bool
+	case "object":
+		return cty.EmptyObject
+	case "list of string":
+		return cty.List(cty.String)
+	}
+	return cty.DynamicPseudoType
+}
+
+func addrSteps(steps [][]interface{}) schema.Address {
+	out := schema.Address{}
+	for _, st := range steps {
+		switch fmt.Sprint(st[0]) {
+		case "static":
+			out = append(out, schema.StaticStep{Name: fmt.Sprint(st[1])})
+		case "label":
+			f, _ := st[1].(float64)
+			out = append(out, schema.LabelStep{Index: uint(f)})
+		case "attrval":
+			out = append(out, schema.AttrValueStep{Name: fmt.Sprint(st[1])})
+		case "attrvalopt":
+			out = append(out, schema.AttrValueStep{Name: fmt.Sprint(st[1]), IsOptional: true})
+		case "attrname":
+			out = append(out, schema.AttrNameStep{})
+		}
+	}
+	return out
+}
+
 type AExt struct {
 	Count   bool `json:"count"`
 	ForEach bool `json:"forEach"`
@@ -94,14 +151,16 @@ type AExt struct {
 }
 
 type AAttr struct {
-	Req  bool  `json:"req"`
-	Opt  bool  `json:"opt"`
-	Comp bool  `json:"comp"`
-	Dep  bool  `json:"dep"`
-	Depr bool  `json:"depr"`
-	Dflt *AVal `json:"dflt"`
+	Req  bool        `json:"req"`
+	Opt  bool        `json:"opt"`
+	Comp bool        `json:"comp"`
+	Dep  bool        `json:"dep"`
+	Depr bool        `json:"depr"`
+	Dflt *AVal       `json:"dflt"`
 	Mods Seq[string] `json:"mods,omitempty"`
 	Desc string      `json:"desc,omitempty"`
+	Addr *AAddr      `json:"addr,omitempty"`
+	Cons *ECons      `json:"cons,omitempty"`
 }
 
 type ALabel struct {
@@ -126,16 +185,19 @@ type ABlock struct {
 	Depr   bool        `json:"depr"`
 	Mods   Seq[string] `json:"mods,omitempty"`
 	Desc   string      `json:"desc,omitempty"`
+	Addr   *AAddr      `json:"addr,omitempty"`
 }
 
 type ABody struct {
-	K      string             `json:"k,omitempty"` // "nil" marks an absent body
-	Attrs  Map[*AAttr]  `json:"attrs"`
-	Blocks Map[*ABlock] `json:"blocks"`
-	Any    bool         `json:"any"`
-	Ext    AExt         `json:"ext"`
-	Link   bool         `json:"link"`
-	Desc   string       `json:"desc,omitempty"`
+	K       string       `json:"k,omitempty"` // "nil" marks an absent body
+	Attrs   Map[*AAttr]  `json:"attrs"`
+	Blocks  Map[*ABlock] `json:"blocks"`
+	Any     bool         `json:"any"`
+	Ext     AExt         `json:"ext"`
+	Link    bool         `json:"link"`
+	Desc    string       `json:"desc,omitempty"`
+	Tas     Seq[ATas]    `json:"tas,omitempty"`
+	AnyAddr *AAddr       `json:"anyaddr,omitempty"`
 }
 
 func (b *ABody) IsNil() bool { return b == nil || b.K == "nil" }
@@ -145,14 +207,16 @@ func (b *ABody) MarshalJSON() ([]byte, error) {
 		return []byte(`{"k":"nil"}`), nil
 	}
 	type plain struct {
-		Attrs  map[string]*AAttr  `json:"attrs"`
-		Blocks map[string]*ABlock `json:"blocks"`
-		Any    bool               `json:"any"`
-		Ext    AExt               `json:"ext"`
-		Link   bool               `json:"link"`
-		Desc   string             `json:"desc,omitempty"`
+		Attrs   map[string]*AAttr  `json:"attrs"`
+		Blocks  map[string]*ABlock `json:"blocks"`
+		Any     bool               `json:"any"`
+		Ext     AExt               `json:"ext"`
+		Link    bool               `json:"link"`
+		Desc    string             `json:"desc,omitempty"`
+		Tas     Seq[ATas]          `json:"tas,omitempty"`
+		AnyAddr *AAddr             `json:"anyaddr,omitempty"`
 	}
-	p := plain{map[string]*AAttr(b.Attrs), map[string]*ABlock(b.Blocks), b.Any, b.Ext, b.Link, b.Desc}
+	p := plain{map[string]*AAttr(b.Attrs), map[string]*ABlock(b.Blocks), b.Any, b.Ext, b.Link, b.Desc, b.Tas, b.AnyAddr}
 	if p.Attrs == nil {
 		p.Attrs = map[string]*AAttr{}
 	}
@@ -176,7 +240,11 @@ func avalCty(v *AVal) (cty.Value, lang.Address, bool) {
 	case "str":
 		return cty.StringVal(fmt.Sprint(v.V)), nil, true
 	case "num":
-		f, _ := v.V.(float64)
+		f, ok := v.V.(float64)
+		if !ok {
+			n, _ := strconv.Atoi(fmt.Sprint(v.V))
+			f = float64(n)
+		}
 		return cty.NumberIntVal(int64(f)), nil, true
 	case "bool":
 		if b, _ := v.V.(bool); b {
@@ -235,7 +303,21 @@ func buildBody(b *ABody) *schema.BodySchema {
 	}
 	if b.Any {
 		bs.AnyAttribute = &schema.AttributeSchema{IsOptional: true, Constraint: schema.AnyExpression{OfType: cty.DynamicPseudoType}}
+		if !b.AnyAddr.IsNil() {
+			bs.AnyAttribute.Address = &schema.AttributeAddrSchema{Steps: addrSteps(b.AnyAddr.Steps), ScopeId: lang.ScopeId(b.AnyAddr.Scope), AsReference: b.AnyAddr.AsRef, AsExprType: b.AnyAddr.AsType}
+		}
 		bs.Attributes = nil
+	}
+	for _, tb := range b.Tas {
+		addr := lang.Address{}
+		for i, n := range tb.Addr {
+			if i == 0 {
+				addr = append(addr, lang.RootStep{Name: n})
+			} else {
+				addr = append(addr, lang.AttrStep{Name: n})
+			}
+		}
+		bs.TargetableAs = append(bs.TargetableAs, &schema.Targetable{Address: addr, ScopeId: lang.ScopeId(tb.Scope), AsType: friendlyType(tb.Typ)})
 	}
 	for n, a := range b.Attrs {
 		if b.Any {
@@ -254,6 +336,12 @@ func buildBody(b *ABody) *schema.BodySchema {
 		}
 		if a.Desc != "" {
 			as.Description = lang.Markdown(a.Desc)
+		}
+		if a.Cons != nil && !a.Dep && !strings.HasPrefix(n, "p_") {
+			as.Constraint = buildECons(a.Cons)
+		}
+		if !a.Addr.IsNil() {
+			as.Address = &schema.AttributeAddrSchema{Steps: addrSteps(a.Addr.Steps), ScopeId: lang.ScopeId(a.Addr.Scope), AsReference: a.Addr.AsRef, AsExprType: a.Addr.AsType}
 		}
 		as.SemanticTokenModifiers = toMods(a.Mods)
 		if a.Dflt != nil && a.Dflt.K != "nil" && a.Dflt.K != "" {
@@ -275,6 +363,14 @@ func buildBlock(t string, blk *ABlock) *schema.BlockSchema {
 		s.Description = lang.Markdown(blk.Desc)
 	}
 	s.SemanticTokenModifiers = toMods(blk.Mods)
+	if !blk.Addr.IsNil() {
+		a := blk.Addr
+		s.Address = &schema.BlockAddrSchema{Steps: addrSteps(a.Steps), ScopeId: lang.ScopeId(a.Scope), AsReference: a.AsRef, BodyAsData: a.BodyAsData,
+			DependentBodyAsData: a.DepBodyAsData, SupportUnknownNestedRefs: a.UnknownNested}
+		if a.AsTypeOf != "" {
+			s.Address.AsTypeOf = &schema.BlockAsTypeOf{AttributeExpr: a.AsTypeOf}
+		}
+	}
 	for i, l := range blk.Labels {
 		ls := &schema.LabelSchema{Name: fmt.Sprintf("l%d", i), IsDepKey: l.Dep, Completable: l.Comp, Description: probeDesc("label", fmt.Sprintf("%s.%d", t, i)), SemanticTokenModifiers: toMods(l.Mods)}
 		if l.Desc != "" {
